@@ -241,6 +241,64 @@ def run_fs(work, cases):
     return len(outs) == len(cases), gout, outs
 
 
+# ------------------------------------- faults and crash leftovers ----
+
+def fault_case(rnd, n_cmds):
+    """sequential commands on a real Router; some run with a file-size limit that cuts the snapshot's write short (EFBIG), some
+    find a temporary file left by an earlier crash, some steps are restarts (harness/c12fault_test.go)"""
+    c, groups = fs_case(rnd, n_cmds)
+    steps = []
+    for st in c["steps"]:
+        for x in (st["par"] if "par" in st else [st]):
+            x = dict(x)
+            r = rnd.random()
+            if len(steps) >= 2 and r < 0.22:
+                x["fsize"] = rnd.choice([1, 40, 200, 600, 1500])
+            elif len(steps) >= 1 and r < 0.4:
+                x["pre_tmp"] = rnd.choice(["partial", "complete"])
+            steps.append(x)
+            if len(steps) >= 2 and rnd.random() < 0.12:
+                rs = {"op": "restart", "id": "x%d" % len(steps)}
+                if rnd.random() < 0.5:
+                    rs["pre_tmp"] = rnd.choice(["partial", "complete"])
+                steps.append(rs)
+    return {"steps": steps}
+
+
+def run_fault(work, cases):
+    write_jsonl(work.path("faultcases.jsonl"), cases)
+    rc, gout = go_test(work, FILES + ["c12fault_test.go"], "^TestVerifC12Fault$",
+                       {"VERIF_IN": work.path("faultcases.jsonl"), "VERIF_OUT": work.path("faultout.jsonl")}, timeout=900, synctest=True)
+    if rc != 0 or not os.path.exists(work.path("faultout.jsonl")):
+        return False, gout, []
+    outs = read_jsonl(work.path("faultout.jsonl"))
+    return len(outs) == len(cases), gout, outs
+
+
+def fault_terms(out):
+    cfgs = Intern(canon_cfg([]))
+
+    def ff(f):
+        if isinstance(f, dict):
+            return "FAbsent" if f.get("error") == "absent" else "FUndecodable"
+        return "(FCfg %d)" % cfgs(canon_cfg(f))
+
+    def cf(c):
+        return cfgs(canon_cfg(c)) if isinstance(c, list) else 999999
+    return "[%s]" % "; ".join("mkFStep %s %s %s %s %d %d" % (bool_lit(r["op"] == "restart"), bool_lit("fsize" in r), ff(r["file_before"]),
+                                                            ff(r["file_after"]), cf(r["cfg_before"]), cf(r["cfg_after"])) for r in out["steps"])
+
+
+def fault_check(work, outs):
+    terms = [fault_terms(o) for o in outs]
+    body = "Definition cases : list (list fstep) := [\n%s].\nDefinition R := Eval vm_compute in map c12_fault_bad cases.\n" % ";\n".join(terms)
+    txt = coq_eval(work, "C12fault", "From KP Require Import model.Base corr.C12fault.\n", body, "R")
+    v = ast.literal_eval(txt.strip().replace(";", ",").replace("%nat", ""))
+    if not isinstance(v, list) or len(v) != len(outs):
+        raise RuntimeError("unexpected fault verdicts: " + txt[:200])
+    return v
+
+
 # ------------------------------------------------------- observations ----
 
 def trace_items(events):
@@ -349,7 +407,7 @@ def run(tier, seed):
     res = Result("C12", tier, seed)
     work = Work("C12")
     try:
-        ok, blog = coq_build(["props/C12.vo", "corr/C12corr.vo"])
+        ok, blog = coq_build(["props/C12.vo", "corr/C12corr.vo", "corr/C12fault.vo"])
         proofs_ok, pa = proof_obligations(work, res, "C12.v", ok, blog)
         rnd = random.Random(seed)
         quick = tier == "quick"
@@ -388,8 +446,15 @@ def run(tier, seed):
             fs_cases.append(c)
             fs_meta.append(g)
 
+        # (5) faults of the file system (the snapshot's write cut short) and leftovers of an earlier crash, restarts
+        fault_cases = [fault_case(rnd, rnd.randint(8, 16)) for _ in range(10 if quick else 80)]
+
         harness_ok, gout, outs = m5.run_scenarios(work, scen, FILES)
         fs_ok, fs_gout, fs_outs = run_fs(work, fs_cases)
+        ft_ok, ft_gout, ft_outs = run_fault(work, fault_cases)
+        ft_bad = fault_check(work, ft_outs) if (ft_ok and ok) else []
+        if not ft_ok:
+            fs_ok, fs_gout = False, ft_gout
         fs_verdicts, fs_shown = [], []
         if fs_ok and ok:
             fts = [fs_term(o) for o in fs_outs]
@@ -473,6 +538,17 @@ def run(tier, seed):
                 "disagreements_with_hooks": len(fs_differ),
                 "sample": fs_shown[0][:40] if fs_shown else []},
         })
+        res.coverage["faults_and_crash_leftovers"] = {
+            "rule": "sequential commands on a real Router (real files); a fifth of the commands run under a file-size limit that cuts the "
+                    "snapshot's write short (EFBIG), others find a <state>.tmp left by an earlier crash (half a document / an older complete "
+                    "one), restarts in between; monitor corr/C12fault.c12_fault_bad on (file before/after, configuration before/after)",
+            "cases": len(fault_cases), "steps": sum(len(o["steps"]) for o in ft_outs),
+            "commands_with_a_failing_write": sum(1 for o in ft_outs for r in o["steps"] if "fsize" in r),
+            "of_which_left_the_file_as_it_was": sum(1 for o in ft_outs for r in o["steps"] if "fsize" in r and
+                                                    json.dumps(r["file_before"], sort_keys=True) == json.dumps(r["file_after"], sort_keys=True)),
+            "steps_with_a_leftover_temporary_file": sum(1 for o in ft_outs for r in o["steps"] if "pre_tmp" in r),
+            "restarts": sum(1 for o in ft_outs for r in o["steps"] if r["op"] == "restart"),
+            "cases_with_a_bad_step": sum(1 for b in ft_bad if b)}
         res.assumptions = [
             "process-kill semantics only: what the kernel holds survives (no power loss, no fsync ordering); crash points are the hook "
             "yields snapshot:collected/created/written/renamed, i.e. the boundaries of the file-system calls of saveStateSnapshot",
@@ -500,6 +576,21 @@ def run(tier, seed):
                                             "by_class": {CLASSES[c]: sum(1 for _, fs in mon for _, cc in fs if cc == c) for c in CLASSES
                                                          if any(cc == c for _, fs in mon for _, cc in fs)}}
             res.violation("monitor-%d" % i, p)
+        elif any(ft_bad):
+            i = next(j for j, b in enumerate(ft_bad) if b)
+            k = ft_bad[i][0]
+            r = ft_outs[i]["steps"][k]
+            res.violation("fault-%d-%d" % (i, k), {
+                "property": "C12", "seed": seed, "tier": tier, "case_index": i, "case": jsonable(fault_cases[i]), "failing_step": k,
+                "what": "the state file is not what C12 allows after this step (corr/C12fault.fstep_ok): it must be one complete snapshot; after a "
+                        "command whose snapshot could be written it describes the configuration in force - whatever an earlier crash left "
+                        "lying in the directory; after a command whose write failed it is the previous snapshot or the current one; a "
+                        "restart restores what the state file describes",
+                "step": {"op": r["op"], "id": r["id"], "result": r.get("result"), "write_cut_short_at_bytes": r.get("fsize"),
+                         "leftover_temporary_file": r.get("pre_tmp"), "state_file_before": summary(r["file_before"]),
+                         "state_file_after": summary(r["file_after"]), "raw_length_after": r.get("raw_len"),
+                         "configuration_before": summary(r["cfg_before"]), "configuration_after": summary(r["cfg_after"]),
+                         "other_files_in_directory": r.get("other_files")}})
         elif fs_mon or fs_stale:
             i = fs_mon[0][0] if fs_mon else fs_stale[0]
             o = fs_outs[i]
